@@ -54,7 +54,7 @@ fn plan(prop: &str, tier: &str) -> (&'static str, u64) {
         "C03" => ("seq", if thorough { 150_000 } else { 8_000 }),
         "C02" => ("crash", if thorough { 20_000 } else { 1_200 }),
         "C11" => ("fault", if thorough { 6_000 } else { 320 }),
-        "C10" => ("long", if thorough { 6_000 } else { 1_600 }),
+        "C10" => ("long", if thorough { 6_000 } else { 800 }),
         "C16" => ("cfg", if thorough { 1_500 } else { 128 }),
         "C15" => ("compat", if thorough { 200_000 } else { 8_000 }),
         "C04" => ("shuttle", if thorough { 4_000_000 } else { 160_000 }),
@@ -123,7 +123,40 @@ fn cmd_check(prop: &str, tier: &str) -> i32 {
     let mut harness_errors: Vec<String> = Vec::new();
     // a worker that dies (signal, abort, stack overflow) is a finding for the seed it announced
     let mut died: Vec<(u64, u64, String)> = Vec::new();
-    while let Some((w, mut ch, out, gen)) = children.pop() {
+    // watchdog: a worker whose announced seed does not change for this long is hung (a real
+    // deadlock or livelock inside the code under test): kill it, report the seed, carry on
+    let hang_secs: u64 = std::env::var("VERIF_HANG_SECS").ok().and_then(|s| s.parse().ok()).unwrap_or(240);
+    let mut hung: std::collections::BTreeSet<String> = Default::default();
+    let mut last_progress: BTreeMap<String, (String, std::time::Instant)> = BTreeMap::new();
+    while !children.is_empty() {
+        // poll
+        let mut finished = None;
+        for (i, (_, ch, out, _)) in children.iter_mut().enumerate() {
+            match ch.try_wait() {
+                Ok(Some(_)) => {
+                    finished = Some(i);
+                    break;
+                }
+                _ => {
+                    let p = std::fs::read_to_string(format!("{}.progress", out)).unwrap_or_default();
+                    let e = last_progress.entry(out.clone()).or_insert_with(|| (p.clone(), std::time::Instant::now()));
+                    if e.0 != p {
+                        *e = (p, std::time::Instant::now());
+                    } else if e.1.elapsed().as_secs() > hang_secs {
+                        let _ = ch.kill();
+                        hung.insert(out.clone());
+                    }
+                }
+            }
+        }
+        let i = match finished {
+            Some(i) => i,
+            None => {
+                std::thread::sleep(std::time::Duration::from_millis(100));
+                continue;
+            }
+        };
+        let (w, mut ch, out, gen) = children.remove(i);
         let st = ch.wait().expect("wait");
         match std::fs::read(&out).ok().and_then(|b| serde_json::from_slice::<Value>(&b).ok()) {
             Some(v) if st.success() => acc.merge_json(&v),
@@ -138,7 +171,8 @@ fn cmd_check(prop: &str, tier: &str) -> i32 {
                 }
                 match (idx, seed) {
                     (Some(i), Some(sd)) => {
-                        died.push((i, sd, format!("{:?}", st)));
+                        let how = if hung.contains(&out) { format!("hung: no progress for {} s, killed", hang_secs) } else { format!("{:?}", st) };
+                        died.push((i, sd, how));
                         if gen < 24 && i + n < count {
                             children.push(spawn(w, i + n, gen + 1));
                         }
